@@ -279,6 +279,33 @@ def _run(pid, cfg, tier, seed, repo, work, t0):
         rc = 1
     for kfd, f in known_hit:
         lines.append("KNOWN-FINDING: property=%s %s" % (pid, kfd.get("what", kfd.get("obligation"))))
+    # probes: oracles for recorded schedule-dependent findings that no contract can express; they run on every check of
+    # the property so that the finding is re-observed (KNOWN-FINDING) or, if it shows a different failure, reported
+    if cfg.get("probes"):
+        from . import replay as rp
+        known_open = [k for k in load_known() if k.get("property") == pid and k.get("status") == "open"]
+        probe_log = []
+        for grp, test in cfg["probes"]:
+            fails, out = rp.run_oracles([grp], repo, work, seed, only=test)
+            for x in fails:
+                if pid not in x.get("props", []):
+                    continue
+                key = "oracle:%s" % x.get("clause")
+                kf = [k for k in known_open if k.get("obligation") == key]
+                probe_log.append(dict(probe=test, clause=x.get("clause"), input=x.get("input"), observed=x.get("observed"), known=bool(kf)))
+                if kf:
+                    if not any(l.startswith("KNOWN-FINDING") and kf[0].get("what", "")[:40] in l for l in lines):
+                        lines.append("KNOWN-FINDING: property=%s %s" % (pid, kf[0].get("what", key)))
+                else:
+                    os.makedirs(os.path.join(ROOT, "replays"), exist_ok=True)
+                    path = os.path.join(ROOT, "replays", "%s-probe.json" % pid)
+                    with open(path, "w") as fo:
+                        json.dump(dict(property=pid, lane="oracle probe", seed=seed, tree=repo, failed_obligation=key, counterexample=x,
+                                       replay=dict(kind="oracle-test", groups=[grp], test=test, seed=seed)), fo, indent=1)
+                    lines.append("VIOLATION property=%s replay=%s" % (pid, path))
+                    ev["violations"] = ev.get("violations", 0) + 1
+                    rc = 1
+        ev["coverage"]["finding_probes"] = probe_log
     if undecided and rc == 0 and cfg.get("replay"):
         # The deductive lane could not bring (part of) the code in front of the verifier.  Bounded stand-in: run the
         # executable oracles of the same contracts on the real crate; a concrete failing input is a violation (never
